@@ -21,7 +21,7 @@ const c03Unit = "C03.history"
 
 func c03NewEnv(t ksTB, k *ksSim) *c03Env {
 	return &c03Env{t: t, k: k, kc: k.Info().Consts, alive: map[uint32]bool{}, domains: map[netip.Addr]string{},
-		bitmapKeys: map[netip.Addr][]byte{}, cls: map[string]int{}}
+		bitmapKeys: map[netip.Addr][]byte{}, cls: map[string]int{}, lastWant: map[int]bpfRoutingResult{}}
 }
 
 func (e *c03Env) hookFor(f *c03Flow, reverse bool, viaLanEgress bool) (prog string, l2 bool, meta ksSkbMeta) {
@@ -113,6 +113,22 @@ func (e *c03Env) goAddrPorts(t *rapid.T, f *c03Flow) (netip.AddrPort, netip.Addr
 
 func (e *c03Env) actForward(t *rapid.T) {
 	f := e.flows[rapid.IntRange(0, len(e.flows)-1).Draw(t, "flow")]
+	n := 1
+	if !f.TCP && rapid.IntRange(0, 2).Draw(t, "burst") == 0 {
+		n = rapid.IntRange(2, 3).Draw(t, "burst_len") // datagrams queue up before userspace reads any
+	}
+	for i := 0; i < n; i++ {
+		e.forwardOne(t, f)
+	}
+	if rapid.IntRange(0, 2).Draw(t, "userspace_reads") == 0 {
+		e.drain(nil)
+	}
+}
+
+func (e *c03Env) forwardOne(t *rapid.T, f *c03Flow) {
+	if f.TCP {
+		e.drain(f) // a TCP flow may restart with this packet: what is queued is read first
+	}
 	e.disambiguate(f)
 	o := e.genFrameOpts(t, f, false)
 	prog, l2, meta := e.hookFor(f, false, false)
@@ -180,6 +196,7 @@ func (e *c03Env) actForward(t *rapid.T) {
 }
 
 func (e *c03Env) actReverse(t *rapid.T) {
+	e.drain(nil)
 	var cands []*c03Flow
 	for _, f := range e.flows {
 		if f.DaeKind == 0 {
@@ -220,6 +237,7 @@ var c03ClockSteps = []uint64{1, c03Sec / 2, c03Sec - 1, c03Sec, c03Sec + 1, 5 * 
 	60 * c03Sec, 119 * c03Sec, 120*c03Sec + 1, 121 * c03Sec, 300 * c03Sec}
 
 func (e *c03Env) actClock(t *rapid.T) {
+	e.drain(nil)
 	d := rapid.SampledFrom(c03ClockSteps).Draw(t, "dt")
 	if rapid.Bool().Draw(t, "small_step") {
 		d = rapid.SampledFrom(c03ClockSteps[:5]).Draw(t, "dt_small")
@@ -229,6 +247,7 @@ func (e *c03Env) actClock(t *rapid.T) {
 }
 
 func (e *c03Env) actConnectivity(t *rapid.T) {
+	e.drain(nil)
 	var groups []uint8
 	for name, id := range e.comp.Name2Id {
 		if name != "direct" && name != "block" && id >= 2 {
@@ -254,11 +273,13 @@ func (e *c03Env) actConnectivity(t *rapid.T) {
 }
 
 func (e *c03Env) actRules(t *rapid.T) {
+	e.drain(nil)
 	e.installProgram(c03GenVariant(t, e.prog), false)
 	e.class("rules_replaced")
 }
 
 func (e *c03Env) actDomain(t *rapid.T) {
+	e.drain(nil)
 	f := e.flows[rapid.IntRange(0, len(e.flows)-1).Draw(t, "flow")]
 	a := f.Pk.Dst.Addr()
 	d := ""
@@ -272,6 +293,7 @@ func (e *c03Env) actDomain(t *rapid.T) {
 }
 
 func (e *c03Env) actSocket(t *rapid.T) {
+	e.drain(nil)
 	f := e.flows[rapid.IntRange(0, len(e.flows)-1).Draw(t, "flow")]
 	s := ksSock{ID: uint32(100 + len(e.socks)), Family: 4, LocalPort: f.Pk.Dst.Port()}
 	if f.V6 {
@@ -307,6 +329,7 @@ func (e *c03Env) actSocket(t *rapid.T) {
 }
 
 func (e *c03Env) actMapFull(t *rapid.T) {
+	e.drain(nil)
 	e.mapFull = !e.mapFull
 	n := e.connMax
 	if e.mapFull {
@@ -368,6 +391,14 @@ func c03History(t *rapid.T, unit string) {
 	if rapid.Bool().Draw(t, "has_sockmark") {
 		sockMark = 0x9000
 	}
+	if r, err := c03TryRealMaps(); err == nil {
+		e.real = r
+		defer r.Close()
+		e.class("real_bpf_maps_layer_active")
+	} else {
+		e.class("real_bpf_maps_layer_skipped")
+		vkNote(unit, "real eBPF map layer skipped (RetrieveRoutingResult not exercised): %v", err)
+	}
 	globalNextLpmIndex.Store(uint32(rapid.IntRange(0, 1023).Draw(t, "ring_start")))
 	e.setup(rapid.Bool().Draw(t, "redirect_peer"), sockMark, rapid.Bool().Draw(t, "has_task_helper"))
 	e.installProgram(vrGenProgram(t, vrOpts{MaxRules: 8}), true)
@@ -398,6 +429,7 @@ func c03History(t *rapid.T, unit string) {
 		}
 	}
 	t.Repeat(acts)
+	e.drain(nil)
 	nops := len(e.ops)
 	e.replaySlow()
 	for i := 0; i < e.prog.ExcludedF1; i++ {
